@@ -450,6 +450,11 @@ func (p *cparser) parseType() *ctype {
 		p.expect("}")
 		name = "any"
 	}
+	if name == "struct" && p.isOp("{") {
+		p.next()
+		p.expect("}")
+		name = "struct{}"
+	}
 	return &ctype{kind: "name", name: name}
 }
 
